@@ -23,7 +23,7 @@ def sh(cmd, cwd=None, inp=None, timeout=None, env=None):
     if env:
         e.update(env)
     p = subprocess.run(cmd, cwd=cwd, input=inp, stdout=subprocess.PIPE, stderr=subprocess.PIPE,
-                       text=True, timeout=timeout, env=e)
+                       text=True, errors="replace", timeout=timeout, env=e)
     return p.returncode, p.stdout, p.stderr
 
 
